@@ -157,6 +157,7 @@ func (p *Program) verifyFunctionWith(cs *ContractSet, ct *Contract, findings map
 			}
 		}()
 		ex.runTop(fc)
+		ex.niGoals(fc)
 	}()
 	res.Goals = ex.goals
 	res.Unsupported = ex.unsupported
@@ -267,6 +268,14 @@ func (ex *Exec) runTop(fc *FnCtx) {
 		}
 	}
 	st.entry = entry
+	if len(ct.Secrets) > 0 {
+		pseudo := &Contract{Modifies: ct.Secrets}
+		refs, extra := ex.modifiedRefs(env, pseudo)
+		if extra.all {
+			ex.specErrs = append(ex.specErrs, "secret locations do not resolve")
+		}
+		ex.niSecrets = refs
+	}
 	// vacuity guard (a): preconditions satisfiable
 	ex.cover(st, shortFn(ct.Func)+"#cover.pre", tTrue, ct.Props, "requires and type invariants are satisfiable")
 
@@ -307,6 +316,21 @@ func (ex *Exec) checkPost(st *State, fc *FnCtx, results []Val, retN int) {
 	ex.curEnv = env
 	defer func() { ex.curEnv = nil }()
 	ex.assumeUses(st, env, ct.PostUses)
+	if len(ct.Secrets) > 0 {
+		var outs []string
+		if len(ct.NiOuts) == 0 && len(rtv) > 0 {
+			outs = append(outs, rtv[0].T.S)
+		}
+		for _, cl := range ct.NiOuts {
+			v, err := env.evalTerm(cl.Text)
+			if err != nil {
+				ex.specError(cl, err)
+				continue
+			}
+			outs = append(outs, env.needTerm(v).T.S)
+		}
+		ex.niReturns = append(ex.niReturns, niReturn{log: append([]string(nil), st.log...), outs: outs, tag: strings.Join(st.pathTag, ",")})
+	}
 	ex.cover(st, fc.prefix+"#cover.return", tTrue, ct.Props, "some return path is reachable under the assumed contracts")
 	for i, cl := range ct.Ensures {
 		t, err := env.evalBool(cl.Text)
@@ -456,4 +480,113 @@ func (ex *Exec) modLocationAST(env *SpecEnv, e ast.Expr, refs map[string][]Term,
 		return
 	}
 	sfail("unsupported modifies location")
+}
+
+
+// niGoals: two-run (self-composition) obligations. For every pair of return
+// paths the second run is a renamed copy of the first run's symbols; the two
+// runs share all inputs except the contents of the secret locations; the
+// results must be equal. Results of library calls are functions of their
+// arguments (deterministic contracts), so equality is decided by congruence.
+func (ex *Exec) niGoals(fc *FnCtx) {
+	if len(ex.niReturns) == 0 || ex.ct == nil {
+		return
+	}
+	low := func(name string) bool {
+		for _, p := range []string{"p_", "A0_", "cg_", "strlit", "uf_", "impl_", "box_", "unbox_", "fv_"} {
+			if strings.HasPrefix(name, p) {
+				return true
+			}
+		}
+		return false
+	}
+	secretConst := map[string]bool{}
+	var lowEq []string
+	if len(ex.niReturns) > 0 {
+		// entry heap constants of the secret components
+		for c, refs := range ex.niSecrets {
+			id := ex.compIDs[c]
+			for _, d := range ex.decls {
+				f := strings.Fields(d)
+				if len(f) > 2 && strings.HasPrefix(f[1], fmt.Sprintf("H0_%d_", id)) {
+					secretConst[f[1]] = true
+					var guard []string
+					for _, r := range refs {
+						guard = append(guard, "(not (= nir "+r.S+"))")
+					}
+					g := "true"
+					if len(guard) == 1 {
+						g = guard[0]
+					} else if len(guard) > 1 {
+						g = "(and " + strings.Join(guard, " ") + ")"
+					}
+					lowEq = append(lowEq, fmt.Sprintf("(assert (forall ((nir Int)) (! (=> %s (= (select %s nir) (select %s__2 nir))) :pattern ((select %s nir)) :pattern ((select %s__2 nir)))))", g, f[1], f[1], f[1], f[1]))
+				}
+			}
+		}
+	}
+	// renamable symbols: declared constants and defined names that are not low inputs
+	ren := map[string]bool{}
+	var decl2 []string
+	for _, d := range ex.decls {
+		f := strings.Fields(d)
+		if len(f) < 3 || f[0] != "(declare-const" {
+			continue
+		}
+		n := f[1]
+		if strings.HasPrefix(n, "H0_") {
+			if !secretConst[n] {
+				continue
+			}
+		} else if low(n) {
+			continue
+		}
+		ren[n] = true
+		decl2 = append(decl2, "(declare-const "+n+"__2 "+strings.TrimSuffix(strings.Join(f[2:], " "), ")")+")")
+	}
+	rename := func(l string) string {
+		return reSym.ReplaceAllStringFunc(l, func(tok string) string {
+			if ren[tok] {
+				return tok + "__2"
+			}
+			return tok
+		})
+	}
+	for _, r := range ex.niReturns {
+		for _, l := range r.log {
+			if strings.HasPrefix(l, "(define-fun ") {
+				ren[strings.Fields(l)[1]] = true
+			}
+		}
+	}
+	props := ex.ct.Props
+	for i, a := range ex.niReturns {
+		for j, b := range ex.niReturns {
+			var prefix []string
+			prefix = append(prefix, a.log...)
+			prefix = append(prefix, decl2...)
+			for _, l := range b.log {
+				prefix = append(prefix, rename(l))
+			}
+			prefix = append(prefix, lowEq...)
+			var eqs []Term
+			for k := range a.outs {
+				if k < len(b.outs) {
+					eqs = append(eqs, Term{"(= " + a.outs[k] + " " + rename(b.outs[k]) + ")", sBool})
+				}
+			}
+			g := and(eqs...)
+			ex.goals = append(ex.goals, &Goal{Name: fc.prefix + "#ni", Kind: "ni", Fn: ex.fn.String(), Props: props,
+				Text: "non-interference: the result does not depend on the contents of " + secretList(ex.ct), Prefix: prefix, Goal: g, Expect: "unsat",
+				PathTag: fmt.Sprintf("run1=%d[%s] run2=%d[%s]", i, a.tag, j, b.tag)})
+		}
+	}
+}
+
+func secretList(ct *Contract) string {
+	var xs []string
+	for _, c := range ct.Secrets {
+		xs = append(xs, c.Text)
+	}
+	return strings.Join(xs, ", ")
 }
